@@ -80,6 +80,10 @@ def cases(rng, tier, shard, nshards):
                    'order': pick(rng, ORDERS), 'length': int(rng.integers(10, 40))} for s in SIMPLIFIERS}
         cfg['rdp']['t'] = float(pick(rng, [0.01, 0.05]))           # keeps most points of a noisy curve: a deep split tree
         cfg['min_point_rdp']['tlist'] = [0.5, 0.3]
+        if rng.random() < 0.5:
+            # global RDP with a tight R2 threshold: hundreds of refinement steps and cache entries in one call
+            cfg['grdp'].update({'cost': 'r2', 't': 0.99999 if fam == 'long-spiky' else 0.3})
+            cfg['mp_grdp'].update({'cost': 'r2', 't': 0.9999 if fam == 'long-spiky' else 0.2})
         yield {'points': pts, 'family': fam, 'layout': 'C', 'cfg': cfg}
     for i in range(count):
         r = rng.random()
